@@ -106,9 +106,61 @@ def run(ctx):
             return True
         return False
 
+    def sampled(f, which):
+        """The position function evaluated for every offset of a few texts (LF and CRLF lines, empty lines, no final newline) and
+        compared with the definition.  'ok' / a counterexample text / None when the interpreter cannot follow the function."""
+        from sa import fd
+        import bisect as _bisect
+        import re as _re
+        texts = [b"", b"a", b"ab\ncd", b"\n\nx\n", b"a\r\nbc\r\n\r\nd", b"keep;\n# c\nstop ;"]
+        selfp = f.params[0]
+
+        def oracle(interp, e, name, recv, args, kw, st):
+            if name and name.startswith("self.") and name[5:] in R.Lexer.methods and R.Lexer.methods[name[5:]] is not f:
+                return fd.Inline(R.Lexer.methods[name[5:]])
+            fn = e.func
+            if isinstance(fn, ast.Attribute) and isinstance(fn.value, ast.Name) and fn.value.id == "re" and fn.attr == "finditer" \
+                    and len(args) == 2 and all(isinstance(a, fd.Const) for a in args):
+                try:
+                    return [(fd.Const([fd.Rec("Match", start=m_.start(), end=m_.end()) for m_ in _re.finditer(args[0].v, args[1].v)]), None)]
+                except Exception:
+                    return None
+            if isinstance(recv, fd.Const) and isinstance(recv.v, fd.Rec) and recv.v.cls == "Match" and name in ("start", "end") and not args:
+                return [(fd.Const(recv.v.fields[name]), None)]
+            if name in ("bisect_right", "bisect", "bisect_left") and len(args) == 2 and all(isinstance(a, fd.Const) for a in args):
+                return [(fd.Const(getattr(_bisect, "bisect_right" if name == "bisect" else name)(args[0].v, args[1].v)), None)]
+            return None
+        n = 0
+        for text in texts:
+            for pos in range(len(text) + 1):
+                it = fd.Interp(f.node, R.Lexer.name, oracle, loop_unroll=len(text) + 2, max_depth=3)
+                env = {"%s.text" % selfp: fd.Const(text), "%s.pos" % selfp: fd.Const(pos)}
+                for an in [n_ for n_ in R.Lexer.methods["__init__"].node.body if isinstance(n_, ast.Assign)]:
+                    for t_ in an.targets:
+                        if isinstance(t_, ast.Attribute) and t_.attr not in ("text", "pos") and isinstance(an.value, ast.Constant):
+                            env["%s.%s" % (selfp, t_.attr)] = fd.Const(an.value.value)
+                try:
+                    paths = it.run(env)
+                except fd.TooManyPaths:
+                    return None
+                if len(paths) != 1 or paths[0].kind != "return" or not isinstance(paths[0].value, fd.Const):
+                    return None
+                want = text[:pos].count(b"\n") + 1 if which == "line" else pos - text.rfind(b"\n", 0, pos)
+                n += 1
+                if paths[0].value.v != want:
+                    return (text, pos, paths[0].value.v, want)
+        return "ok:%d" % n
+
     e = single_return(ln)
     if e is not None and line_ok(e, ln):
         ctx.holds("Z2", "curlineno: %s" % norm(e))
+    elif isinstance(sampled(ln, "line"), str):
+        ctx.holds("Z2", "curlineno: not one of the recognised formulas; evaluated for every offset of six texts (%s offsets): equal to "
+                        "1 + the number of LF before the offset on all of them (a sample, not a proof)" % sampled(ln, "line")[3:])
+    elif sampled(ln, "line") is not None:
+        t_, p_, g_, w_ = sampled(ln, "line")
+        ctx.violation("Z2", ln, "line-value", "curlineno gives %r for offset %d of %r; 1 + the number of LF bytes before the offset is %d"
+                      % (g_, p_, t_, w_), node=ln.node, witness="an error at that offset is reported on the wrong line")
     else:
         ctx.violation("Z2", ln, "line-formula", "curlineno computes %s, which is not 1 + the number of LF bytes before the position"
                       % (norm(e) if e is not None else "<several statements>"), node=ln.node,
@@ -116,6 +168,13 @@ def run(ctx):
     e = single_return(col)
     if e is not None and col_ok(e, col):
         ctx.holds("Z2", "curcolno: %s" % norm(e))
+    elif isinstance(sampled(col, "col"), str):
+        ctx.holds("Z2", "curcolno: not one of the recognised formulas; evaluated for every offset of six texts (%s offsets): equal to the "
+                        "offset minus the index of the last LF before it on all of them (a sample, not a proof)" % sampled(col, "col")[3:])
+    elif sampled(col, "col") is not None:
+        t_, p_, g_, w_ = sampled(col, "col")
+        ctx.violation("Z2", col, "column-value", "curcolno gives %r for offset %d of %r; the offset minus the index of the last LF before it is %d"
+                      % (g_, p_, t_, w_), node=col.node, witness="the reported column of an offending token is off")
     else:
         ctx.violation("Z2", col, "column-formula", "curcolno computes %s, which is not the position minus the index of the last LF before it"
                       % (norm(e) if e is not None else "<several statements>"), node=col.node,
@@ -143,8 +202,9 @@ def run(ctx):
                     return ds[0].value
             return e
         e0, e1, e2 = [local_value(x) for x in poss[0].value.elts]
-        ok0 = isinstance(e0, ast.Call) and call_name(e0) == "curlineno" and "lexer" in norm(e0.func)
-        ok1 = isinstance(e1, ast.Call) and call_name(e1) == "curcolno" and "lexer" in norm(e1.func)
+        raw0, raw1 = poss[0].value.elts[0], poss[0].value.elts[1]
+        ok0 = position_source(ctx, R, h, raw0) == "line"
+        ok1 = position_source(ctx, R, h, raw1) == "column"
         ok2 = isinstance(e2, ast.Call) and call_name(e2) == "len" and e2.args and isinstance(e2.args[0], ast.Name) and e2.args[0].id == tval
         if ok0 and ok1 and ok2:
             ctx.holds("Z3", "error_pos = (%s, %s, %s)" % (norm(e0), norm(e1), norm(e2)))
@@ -160,7 +220,8 @@ def run(ctx):
             hs = holes(template(v))
             if hs:
                 first = local_value(hs[0].expr)
-            if first is not None and (norm(first).endswith("error_pos[0]") or (isinstance(first, ast.Call) and call_name(first) == "curlineno")):
+            if first is not None and (norm(first).endswith("error_pos[0]") or (isinstance(first, ast.Call) and call_name(first) == "curlineno")
+                                      or (hs and position_source(ctx, R, h, hs[0].expr) == "line")):
                 ctx.holds("Z3", "error text line = %s" % norm(first))
             else:
                 ctx.violation("Z3", R.parse, "error-line-source", "the line number in the error text is %s, not the one stored in error_pos"
@@ -169,7 +230,7 @@ def run(ctx):
         if poss and errs and poss[0].lineno > errs[0].lineno:
             ctx.violation("Z3", R.parse, "error-before-pos", "the error text is built before error_pos is computed", node=errs[0])
     # the token value is defined before the loop (lexical errors are raised before the first assignment)
-    pre = [a for a in walk_no_nested(tr) if isinstance(a, (ast.Assign, ast.AnnAssign)) and a.lineno < fors[0].lineno and any(
+    pre = [a for a in walk_no_nested(R.parse.node) if isinstance(a, (ast.Assign, ast.AnnAssign)) and a.lineno < fors[0].lineno and any(
         isinstance(t, ast.Name) and t.id == tval for t in (a.targets if isinstance(a, ast.Assign) else [a.target])) and getattr(a, "value", None) is not None]
     if pre and const_value(ctx.program, R.parse, pre[0].value) == b"":
         ctx.holds("Z3", "%s is b'' before the first token (length 0 for lexical errors at the start)" % tval)
@@ -230,3 +291,57 @@ def z6(ctx, R):
                       witness="a script starting with blank lines reports its errors on too small a line number")
     else:
         ctx.holds("Z6", "%s: the input is only encoded (str -> bytes) before it is scanned" % pf.qualname)
+
+
+def position_source(ctx, R, scope, e):
+    """'line' / 'column' when expression e (inside `scope`, the handler) is the lexer's current line / column: a call of
+    curlineno() / curcolno(), a local holding one, or a component of `a, b = <lexer>.M(<lexer>.pos)` where curlineno() / curcolno()
+    themselves are defined as M(self.pos)[0] / [1]."""
+    ln = R.Lexer.methods.get("curlineno")
+    col = R.Lexer.methods.get("curcolno")
+
+    def via(f):
+        """(M, index) when f's body is `return self.M(self.pos)[index]`"""
+        if f is None:
+            return None
+        rs = [r for r in walk_no_nested(f.node) if isinstance(r, ast.Return) and r.value is not None]
+        if len(rs) != 1:
+            return None
+        v = rs[0].value
+        if isinstance(v, ast.Subscript) and isinstance(v.slice, ast.Constant) and isinstance(v.value, ast.Call) and isinstance(v.value.func, ast.Attribute) \
+                and isinstance(v.value.func.value, ast.Name) and v.value.func.value.id == f.params[0] and len(v.value.args) == 1 \
+                and isinstance(v.value.args[0], ast.Attribute) and v.value.args[0].attr == "pos":
+            return (v.value.func.attr, v.slice.value)
+        return None
+    if isinstance(e, ast.Call) and call_name(e) == "curlineno" and "lexer" in norm(e.func):
+        return "line"
+    if isinstance(e, ast.Call) and call_name(e) == "curcolno" and "lexer" in norm(e.func):
+        return "column"
+    if isinstance(e, ast.Name):
+        for a in walk_no_nested(scope):
+            if isinstance(a, ast.Assign) and len(a.targets) == 1:
+                t = a.targets[0]
+                if isinstance(t, ast.Name) and t.id == e.id and a.lineno <= e.lineno:
+                    return position_source(ctx, R, scope, a.value)
+                if isinstance(t, (ast.Tuple, ast.List)) and any(isinstance(x, ast.Name) and x.id == e.id for x in t.elts) \
+                        and isinstance(a.value, ast.Call) and isinstance(a.value.func, ast.Attribute) and "lexer" in norm(a.value.func.value) \
+                        and len(a.value.args) == 1 and isinstance(a.value.args[0], ast.Attribute) and a.value.args[0].attr == "pos" \
+                        and "lexer" in norm(a.value.args[0].value):
+                    idx = [i for i, x in enumerate(t.elts) if isinstance(x, ast.Name) and x.id == e.id][0]
+                    for f, what in ((ln, "line"), (col, "column")):
+                        if via(f) == (a.value.func.attr, idx):
+                            return what
+    return None
+
+
+def position_helpers(R):
+    """names of Lexer methods that curlineno / curcolno are defined through (calling them is calling the position functions)"""
+    out = {"curlineno", "curcolno"}
+    for nm in ("curlineno", "curcolno"):
+        f = R.Lexer.methods.get(nm)
+        if f is not None:
+            for c in walk_no_nested(f.node):
+                if isinstance(c, ast.Call) and isinstance(c.func, ast.Attribute) and isinstance(c.func.value, ast.Name) and c.func.value.id == f.params[0] \
+                        and c.func.attr in R.Lexer.methods:
+                    out.add(c.func.attr)
+    return out
